@@ -449,4 +449,69 @@ def check_case(case):
     return r
 
 
-PARTS = [Part("nufft", check_case, {"quick": 3000, "thorough": 80000}, strategy=st_case)]
+# ------------------------------------------------------------------ exhaustive sweep over axis lengths
+#
+# The per-axis integer arithmetic of nufft (oversampled length ceil(os*n), its centre, the coordinate scale and
+# shift, the apodisation centre) depends on the axis length n and on oversamp only.  A slip there can be confined
+# to a handful of "magic" lengths (e.g. where a float product lands one ulp below an integer), which random
+# shapes <= 16 never reach.  The domain {n = 1..512} x {oversamp in OS_SWEEP} is finite and small, so it is
+# ENUMERATED COMPLETELY in every tier (16 slices; the slice index is the only drawn value, Hypothesis exhausts it).
+
+OS_SWEEP = [1.25, 1.3, 1.375, 1.5, 1.75, 2.0]
+N_SWEEP = 512
+N_SLICES = 16
+
+
+def st_sizes():
+    return st.builds(lambda k: {"slice": k}, st.sampled_from(list(range(N_SLICES))))
+
+
+def check_sizes(case):
+    import sigpy as sp
+    warnings.simplefilter("ignore")
+    r = R()
+    k = case["slice"]
+    rng = np.random.default_rng(1234 + k)
+    worst = 0.0
+    nconf = 0
+    for n in range(1 + k, N_SWEEP + 1, N_SLICES):
+        # points: centre, half-integer, both edges, out of range, two generic dyadic ones
+        pts = np.array([0.0, 0.5, -(n // 2), n - n // 2 - 1, 1.25 * n, -0.75 * n - 0.125,
+                        rng.integers(-8 * n, 8 * n) / 16.0, rng.integers(-8 * n, 8 * n) / 16.0]).reshape(-1, 1)
+        x = (rng.standard_normal(n) + 1j * rng.standard_normal(n))
+        yv = (rng.standard_normal(len(pts)) + 1j * rng.standard_normal(len(pts)))
+        E = nudft_matrix([n], pts)
+        ref = E @ x
+        for os_ in OS_SWEEP:
+            nconf += 1
+            try:
+                y = sp.nufft(x, pts, oversamp=os_, width=4)
+                z = sp.nufft_adjoint(yv, pts, oshape=[n], oversamp=os_, width=4)
+            except Exception as e:
+                r.fail("sizes:raises", "n=%d oversamp=%s: %s: %s" % (n, os_, type(e).__name__, e))
+                continue
+            e_rel = np.linalg.norm(y - ref) / (np.sqrt(len(pts)) * np.linalg.norm(x))
+            thr = eps_for(os_, 4)
+            worst = max(worst, e_rel / thr)
+            if not e_rel < thr:
+                r.fail("sizes:accuracy", "n=%d oversamp=%s: error %.3e >= %.3g (1-D, width 4)" % (n, os_, e_rel, thr))
+            lhs = np.vdot(yv, y)
+            rhs = np.vdot(z, x)
+            if not abs(lhs - rhs) <= 1e-9 * (np.linalg.norm(yv) * np.linalg.norm(y) + np.linalg.norm(z) * np.linalg.norm(x) + 1e-300):
+                r.fail("sizes:adjoint", "n=%d oversamp=%s: <y,Ax> - <A^H y,x> = %.3e" % (n, os_, abs(lhs - rhs)))
+    r.notes["worst_ratio"] = worst
+    r.notes["configs"] = nconf
+    r.label("slice%d" % k)
+    r.nontrivial = True
+    r.sig = "sizes-slice-%d" % k
+    return r
+
+
+def extra_coverage(tier):
+    return {"exhaustive_subdomains": ["nufft/nufft_adjoint 1-D, width 4: every axis length n in 1..%d x oversamp in %s "
+                                      "(%d configurations, enumerated completely in every tier by part 'sizes')"
+                                      % (N_SWEEP, OS_SWEEP, N_SWEEP * len(OS_SWEEP))]}
+
+
+PARTS = [Part("nufft", check_case, {"quick": 3000, "thorough": 80000}, strategy=st_case),
+         Part("sizes", check_sizes, {"quick": 48, "thorough": 48}, strategy=st_sizes, max_shards=1)]
